@@ -140,7 +140,7 @@ def lean_obligations(prop):
                 problems.append("translator: " + pr)
         except Exception as e:  # the translator could not read the source: the obligation is not established
             problems.append(f"translator failed on the current source: {e!r}")
-    if any(re.search(r"\.T\d\d[a-z]?$", m) for m in mods):
+    if any(re.search(r"\.(T\d\d[a-z]?|S\d\d)$", m) for m in mods):
         # translator tie for the pure helper code: Generated/Pure*.lean are regenerated from /repo's CURRENT source and the
         # theorems of Props/T01..T05 re-proved against them
         try:
